@@ -9,7 +9,7 @@
 From RM Require Import RingModel FullSync Chan.
 
 Inductive mres := MSendOk (v : Z) | MYield (i : nat) (v : Z) | MPending (i : nat) | MEnd (i : nat) | MCreated (i : Z) | MDropped (i : nat) | MNoStream | MCountR (n : Z).
-Inductive mop := MoSend (v : Z) | MoPoll (i : nat) | MoDrive (i : nat) | MoCreate | MoDrop (i : nat) | MoCount | MoCreateS | MoDropS (i : nat).
+Inductive mop := MoSend (v : Z) | MoPoll (i : nat) | MoDrive (i : nat) | MoCreate | MoDrop (i : nat) | MoCount | MoCreateS | MoDropS (i : nat) | MoPollMine.
 Inductive mpc :=
 | MIdle
 | MSendU (v : Z) (j : nat) | MSendQ (v : Z) (j : nat) (id : nat) | MSendW (v : Z) (j : nat) (id : nat) (full : bool) (w : wpc)
@@ -158,6 +158,10 @@ Definition mstep (s : mst) (t : nat) : mst :=
           (match r with MCreated id => upd (alive s) (Z.to_nat id) true | _ => alive s end) (upd (mthr s) t MIdle) (mlog s ++ [(t, r)])
   end.
 
+(* the stream this thread created last (for programs that create a listener and then poll it) *)
+Definition last_created (l : list (nat * mres)) (t : nat) : option nat :=
+  fold_left (fun acc e => match snd e with MCreated id => if Nat.eqb (fst e) t then Some (Z.to_nat id) else acc | _ => acc end) l None.
+
 Definition mstart (s : mst) (t : nat) (o : mop) : mst :=
   match mthr s t with
   | MIdle =>
@@ -171,6 +175,11 @@ Definition mstart (s : mst) (t : nat) (o : mop) : mst :=
       | MoCount => msetpc s t MCount
       | MoCreateS => if existsb (fun i => negb (alive s i)) (seq 0 M) then msetpc s t KC1 else msetpc s t MNo
       | MoDropS i => if alive s i then mmk (mx s) (rings s) (msm s) (vacant s) (upd (alive s) i false) (upd (mthr s) t (KD1 i)) (mlog s) else msetpc s t MNo
+      | MoPollMine => match last_created (mlog s) t with
+                      | Some i => if alive s i then mmk (mx s) (upd (rings s) i (start (rings s i) t OpCons)) (msm s) (vacant s) (alive s) (upd (mthr s) t (MPollQ i false)) (mlog s)
+                                  else msetpc s t MNo
+                      | None => msetpc s t MNo
+                      end
       end
   | _ => s
   end.
